@@ -436,7 +436,7 @@ func c17RaceExec(op []string) (string, bool) {
 	started := time.Now()
 	for i := 0; i < iters; i++ {
 		// a tree on which most iterations hang must not take for ever: enough is known after a few
-		if len(bad) > 0 && (okN+sum(bad) >= iters || sum(bad) >= 3 || time.Since(started) > 40*time.Second) {
+		if len(bad) > 0 && (okN+sum(bad) >= iters || sum(bad) >= 2 || time.Since(started) > 40*time.Second) {
 			break
 		}
 		ran++
